@@ -369,6 +369,10 @@ pub fn multi_session_trace(seed: u64, zipped: bool) -> Trace {
         let n = rng.range(4, 25);
         let touch = !zipped && rng.chance(0.5);
         let mut h = history_steps(&mut rng, n, touch, &all);
+        // a touched prefs.yaml makes every session re-read its preferences (values written by navigation commands fall
+        // back to the file): that is an environment event acting on the other session's *preferences*, not a
+        // dependence of its results on another session, so it is kept out of the solo-run comparison
+        h.retain(|st| !matches!(st, Step::Env(EnvEvent::Touch { path }) if path.ends_with("/prefs.yaml")));
         // checkpoints against a fresh session are a single-session oracle; here the oracle is the solo run
         h.retain(|st| !matches!(st, Step::Check { .. }));
         s.extend(h);
